@@ -141,9 +141,24 @@ def run(c):
             if " " in l:
                 t, p = l.split(" ", 1)
                 jobs += [(which, p, k) for k in c1.MUT_KINDS]
+    # sibling groups: all children of a short list mutated together (a list whose every alternative is malformed)
+    pair_jobs = []
+    for which in ("vs_full.schema.yaml", "default.yaml"):
+        rc, out = vlib.sh([exe, "paths", os.path.join(base, which)], env=vlib.SAN_ENV)
+        kids = {}
+        for l in out.splitlines():
+            if " " in l:
+                t, p = l.split(" ", 1)
+                if re.search(r"/@\d+$", p):
+                    kids.setdefault(p.rsplit("/", 1)[0], []).append(p)
+        for parent, ch in kids.items():
+            if 1 <= len(ch) <= 3:
+                for k in ("emptymap", "list1", "null", "emptylist"):
+                    pair_jobs.append((which, "+".join(ch), k))
     c.rng.shuffle(jobs)
-    total_mutants = len(jobs)
-    jobs = jobs[:n_mut]
+    c.rng.shuffle(pair_jobs)
+    total_mutants = len(jobs) + len(pair_jobs)
+    jobs = jobs[:n_mut] + pair_jobs[:(n_mut // 2)]
     hist = c1.short_history("vs_full")
 
     def mut_job(j):
@@ -151,8 +166,12 @@ def run(c):
         d = os.path.join(c.work, "m%d" % i)
         shutil.copytree(base, d)
         shutil.rmtree(os.path.join(d, "build"), ignore_errors=True)
-        subprocess.run([exe, "mutate", os.path.join(base, which), os.path.join(d, which), p, k],
-                       env=dict(os.environ, **vlib.SAN_ENV), capture_output=True)
+        srcf = os.path.join(base, which)
+        for j, one in enumerate(p.split("+")):      # a sibling group is applied one node after the other
+            subprocess.run([exe, "mutate", srcf, os.path.join(d, which) + (".%d" % j), one, k],
+                           env=dict(os.environ, **vlib.SAN_ENV), capture_output=True)
+            srcf = os.path.join(d, which) + (".%d" % j)
+        os.replace(srcf, os.path.join(d, which))
         rc, out = run_script(exe, d, hist, 90)
         shutil.rmtree(d, ignore_errors=True)
         return which, p, k, rc, out
@@ -190,9 +209,10 @@ def replay(c, r):
     exe, bdir = vlib.build_harness("c01_harness", "san", ["c01_harness.cc"])
     base = c1.make_full_workspace(os.path.join(c.work, "base"))
     if r.get("mode") == "mutant":
-        subprocess.run([exe, "mutate", os.path.join(base, r["file"]), os.path.join(base, r["file"]) + ".m", r["path"], r["mutation"]],
-                       env=dict(os.environ, **vlib.SAN_ENV))
-        os.replace(os.path.join(base, r["file"]) + ".m", os.path.join(base, r["file"]))
+        for one in r["path"].split("+"):
+            subprocess.run([exe, "mutate", os.path.join(base, r["file"]), os.path.join(base, r["file"]) + ".m", one, r["mutation"]],
+                           env=dict(os.environ, **vlib.SAN_ENV))
+            os.replace(os.path.join(base, r["file"]) + ".m", os.path.join(base, r["file"]))
         rc, out = run_script(exe, base, r["ops"], 90)
     elif "ops" in r:
         rc, out = run_script(exe, base, sc.table_lines([tuple(x) for x in r.get("table", [])]) + r["ops"])
